@@ -50,7 +50,8 @@ def gen_glob(rng, files):
 
 def gen_project(rng):
     files = {}
-    globbed_ext = rng.choice([None, 'foo', 'conf'])
+    # an extension without language, or one that belongs to a built-in language and is re-assigned
+    globbed_ext = rng.choice([None, 'foo', 'conf', 'ts', 'h', 'json', 'mjs', 'pyi'])
     glob_lang = rng.choice(['JavaScript', 'Yaml', 'Python'])
     for _ in range(rng.randint(4, 12)):
         lang = rng.choice(list(LANGS) + ['-'])
